@@ -278,6 +278,8 @@ class C06(Check):
                 simenv.install_poison(None)
             if sum(p.empty_calls for p in proxies):
                 res.probe("np_empty_poisoned")
+                res.fault("poisoned_np_empty_allocation",
+                          sum(p.empty_calls for p in proxies))
             out["steps"] = fs.total_calls
             outcomes.append(out)
             log.add("OUT", out["status"], out.get("exc"))
